@@ -148,6 +148,7 @@ type reqCase struct {
 	Query   string `json:"query"`    // "" or "?..."
 	Form    string `json:"form"`     // "origin" | "absolute"
 	Note    string `json:"note,omitempty"`
+	Variant string `json:"variant,omitempty"` // spec variant (variants.go); "" = the real document
 }
 
 func (c reqCase) path() []byte { b, _ := hex.DecodeString(c.PathHex); return b }
@@ -865,7 +866,8 @@ func fixedSpellings(canon, template string) [][2]string {
 func main() {
 	run := vh.Start("Verif.Corr.C18", 250)
 	defer run.Finish()
-	run.Rule = "requests = method x path spelling (canonical paths of every operation of oapi.yaml under hand-enumerated spellings x all methods first, then PRNG: template instantiation with valid/invalid parameter values, mount-prefix variants, 0-3 spelling mutations, query strings, absolute-form targets); each is served on four stacks (full router and validator-less router, write operations disabled and enabled), twice each; non-trivial = the request got past the root router to the guard on the validator-less stack; distinct by (method, path bytes)"
+	run.SetPreamble("From Verif Require Import Model.HttpGuard.") // mk_op, rokind in variant cases
+	run.Rule = "requests = method x path spelling (canonical paths of every operation of oapi.yaml under hand-enumerated spellings x all methods first, then PRNG: template instantiation with valid/invalid parameter values, mount-prefix variants, 0-3 spelling mutations, query strings, absolute-form targets); each is served on four stacks (full router and validator-less router, write operations disabled and enabled), twice each; then spec variants (the real document plus added operations whose concrete path is also matched by a template of the other read-only classification, or by two templates) x plain paths x a few methods, each repeated 16 times on the validator-less and 8 times on the full stack over 4 freshly built instances; non-trivial = the request got past the root router to the guard on the validator-less stack; distinct by (method, path bytes)"
 
 	// chi's request logger prints every request; keep the middleware, drop the output
 	middleware.DefaultLogger = middleware.RequestLogger(&middleware.DefaultLogFormatter{Logger: log.New(io.Discard, "", 0), NoColor: true})
@@ -891,6 +893,16 @@ func main() {
 		var c reqCase
 		if err := run.LoadReplay(&c); err != nil {
 			panic(err)
+		}
+		if c.Variant != "" {
+			v := variantByName(c.Variant)
+			if v == nil {
+				panic("unknown spec variant " + c.Variant)
+			}
+			if inst := w.variantInstances(pool, v); inst != nil {
+				w.runVariantCase(v, inst, c)
+			}
+			return
 		}
 		var canon *yamlOp
 		if c.Kind == "canonical" {
@@ -941,4 +953,6 @@ func main() {
 		jobs = append(jobs, job{c, nil})
 	}
 	w.runAll(jobs, pool)
+	// 5. spec variants: the guard's lookup order (exact path before templates, map order)
+	w.runVariants(pool)
 }
